@@ -67,7 +67,7 @@ RULE = (
 )
 PARTIAL = [
     "Arrow sizes themselves (how large a batch serialises) are measured, not derived",
-    "HTTP response compression of producer turns (bytes counted by resp_buf.tell() are then compressed bytes) is not modelled",
+    "HTTP response compression of producer turns is not exercised (the break decision measures write_sink.tell(), the IPC bytes written, which equals resp_buf.tell() without a codec)",
 ]
 MANIFEST = {
     "level": "proof",
